@@ -1,6 +1,6 @@
 """C20 — clock times are consistent across time zones and meridians (engine M; partial)."""
 from ..common import *
-from ..obl import base, jd, transit, wiring
+from ..obl import base, jd, transit, wiring, rounding
 from .. import replay
 from . import c01
 
@@ -43,8 +43,12 @@ def run(rep):
     rep.bounds = {"dates": "1583..9999", "gmt": "[-12,12] with shifted value in range", "transit": "as in C01"}
     rep.assumptions += ["the +-10 s covariance of all seven clock times depends on the real ephemeris evaluated d hours apart and is outside the claim"]
     results = base.run_obligations(rep, [(jd.jd_gmt_shift, None), (jd.jd_formula, (1583, 9999)), (wiring.prayer_times_dt_wiring, False),
-                                         (wiring.prayer_times_dt_wiring, True), (transit.ra_deltas, None), (transit.dhuhr_transit, None), (wiring.astro_day_wiring, None)])
-    if any((x["cands"] or x["inconclusive"]) for x in results):
+                                         (wiring.prayer_times_dt_wiring, True), (transit.ra_deltas, None), (transit.dhuhr_transit, None), (wiring.astro_day_wiring, None)] +
+                                   [(rounding.rounding, ("None", k, -50, 75, 1500)) for k in rounding.PRAYERS])
+    if any((x["cands"] or x["inconclusive"]) for x in results if x["name"].startswith("hour_to_time")):
+        from . import c11
+        c11.confirm_rounding(rep, results)
+    if any((x["cands"] or x["inconclusive"]) for x in results) or rep.tier == "thorough":
         found = {}
         for key, desc, case, obs in metamorphic():
             found.setdefault(key, []).append((desc, case, obs))
@@ -56,8 +60,9 @@ def run(rep):
             c01.confirm(rep, [x for x in results if "JulianDay" not in x["name"]])
             if not rep.violations and not rep.inconclusive and any(x["cands"] for x in results):
                 rep.inconclusive.append("solver counterexamples not reproduced natively")
-    from . import policyprop as _pp
+    from . import policyprop as _pp, ephsweep
     _pp.purity_native(rep)
+    ephsweep.sweep(rep, {"dhuhr"})
     rep.samples = [{"obligation": o["name"], "status": o["status"], "paths": o.get("paths")} for o in rep.obligations]
 
 
